@@ -75,6 +75,15 @@ def add_to_cache(cache, tmp, files, name):
     return obj
 
 
+def corrupt_object(cache, content):
+    """tamper with an object after it was added: rewrite its bytes, leave it NOT write-protected"""
+    p = cache.oid_to_path(md5(content))
+    if os.path.exists(p):
+        tmp = p + ".tamper"
+        open(tmp, "wb").write(b"tampered:" + content[::-1])
+        os.replace(tmp, p)  # a new inode: workspace files hard-linked to the object keep their own (good) bytes
+
+
 def drop_object(cache, content):
     p = cache.oid_to_path(md5(content))
     if os.path.exists(p):
@@ -97,7 +106,9 @@ def scenario(rng, idx):
     extra = {n: f"new-{n}".encode() for n in ("x", "sub/y") if rng.random() < 0.25}
     lost = [n for n in ws_files if rng.random() < 0.3]
     lose_dir_obj = rng.random() < 0.15
-    return dict(cls=cls.__name__, link=link, ws_files=ws_files, ws_is_file=ws_is_file, target=target_kind, relink=relink, prompt=prompt,
+    corrupt = [n for n in ws_files if rng.random() < 0.2]          # cache objects tampered with after they were added
+    corrupt_target = rng.random() < 0.3
+    return dict(corrupt=corrupt, corrupt_target=corrupt_target, cls=cls.__name__, link=link, ws_files=ws_files, ws_is_file=ws_is_file, target=target_kind, relink=relink, prompt=prompt,
                 edits=edits, extra=extra, lost=lost, lose_dir_obj=lose_dir_obj)
 
 
@@ -117,16 +128,17 @@ def run_one(sc):
         except Exception as e:  # noqa: BLE001
             return {"skipped": "setup checkout failed: " + repr(e)}
         if sc["target"] == "same":
-            tgt = cur
+            tgt, tgt_files = cur, (base if isinstance(base, dict) else {"": base})
         elif sc["target"] == "none":
-            tgt = None
+            tgt, tgt_files = None, {}
         elif sc["target"] == "file":
-            tgt = add_to_cache(cache, tmp, b"a single file", "tgt")
+            tgt, tgt_files = add_to_cache(cache, tmp, b"a single file", "tgt"), {"": b"a single file"}
         elif sc["target"] == "subset" and isinstance(base, dict):
             keep = dict(list(base.items())[: max(1, len(base) // 2)])
-            tgt = add_to_cache(cache, tmp, keep, "tgt")
+            tgt, tgt_files = add_to_cache(cache, tmp, keep, "tgt"), keep
         else:
-            tgt = add_to_cache(cache, tmp, {"a": b"other-a", "n/new": b"other-new"}, "tgt")
+            tgt_files = {"a": b"other-a", "n/new": b"other-new"}
+            tgt = add_to_cache(cache, tmp, tgt_files, "tgt")
         # user activity
         if isinstance(base, dict):
             for n, data in {**sc["edits"], **sc["extra"]}.items():
@@ -142,6 +154,14 @@ def run_one(sc):
                 drop_object(cache, base[n])
         elif sc["lost"]:
             drop_object(cache, base)
+        if sc["link"] == "symlink":
+            # a symlinked workspace file IS the cache object: tampering with the object is not a workspace history
+            sc = dict(sc, corrupt=[], corrupt_target=False)
+        if isinstance(base, dict):
+            for n in sc.get("corrupt", []):
+                corrupt_object(cache, base[n])
+        if sc.get("corrupt_target") and tgt_files:
+            corrupt_object(cache, sorted(tgt_files.values())[0])
         if sc["lose_dir_obj"] and cur.hash_info.isdir:
             p = cache.oid_to_path(cur.hash_info.value)
             os.chmod(p, 0o644)
@@ -160,6 +180,12 @@ def run_one(sc):
             if not in_cache(cache, data):
                 lost.append({"path": rel or ".", "content": data.decode(errors="replace"), "now": (after.get(rel) or b"<gone>").decode(errors="replace")})
         rep = {"outcome": outcome, "changed": sum(1 for r, d in before.items() if after.get(r) != d)}
+        # C07: checkout refuses to materialise a corrupted object -- whatever it wrote is the target's bytes
+        wrong = [{"path": rel or ".", "now": (data or b"").decode(errors="replace")} for rel, data in after.items()
+                 if data != before.get(rel) and rel in tgt_files and data != tgt_files[rel]]
+        if wrong:
+            rep["violation"] = "checkout materialised bytes that are not the target's (corrupted cache object served)"
+            rep["wrong"] = wrong
         if lost:
             rep["violation"] = "unrecoverable workspace content destroyed without force/consent"
             rep["lost"] = lost
@@ -181,7 +207,7 @@ def main():
             failures.append({"scenario": {k: (v if not isinstance(v, dict) else {a: b.decode() for a, b in v.items()}) for k, v in sc.items()}, **rep})
     print(json.dumps({
         "evaluations": evaluations, "distinct_nontrivial": nontrivial, "n_failures": len(failures), "failures": failures[:5],
-        "bound": f"{n} seeded workspace histories: <=4 tracked files in <=3 directory levels, edits/additions/lost cache objects, "
+        "bound": f"{n} seeded workspace histories: <=4 tracked files in <=3 directory levels, edits/additions/lost or tampered cache objects, "
                  "targets none/same/other/file/subset, 2 store classes x 3 link types, relink on/off, prompt absent/declining, force never",
     }))
 
